@@ -373,7 +373,14 @@ def check_lsh_pairs(ctx):
             continue
         ctx.saw_fn(fl)
         ctx.saw_fn(fs)
-        a, b = normal_form(fl.node, RENAME), normal_form(fs.node, RENAME)
+        def resolver(cname):
+            def r(meth):
+                f_ = prog.cls(cname).resolve(meth)
+                if f_ is None or f_.is_static:
+                    return None
+                return list(f_.params[1:])
+            return r
+        a, b = normal_form(fl.node, RENAME, resolver(lib)), normal_form(fs.node, RENAME, resolver(sim))
         ctx.check(a == b, "R15.5", "%s.%s == %s.%s (modulo renaming)" % (lib, meth, sim, meth), fs.node, fs,
                   _first_diff(a, b), construct="def %s.%s / def %s.%s" % (lib, meth, sim, meth))
     ctx.floor("R15.5", "LSH method pairs", n, 6)
